@@ -291,6 +291,7 @@ def scenario(ctx, sseed, focus, force_huge=False):
     n_ops = rng.randint(8, 16)
     side = random.Random(sseed ^ 0x5bd1e995)          # (a stream of its own: stored scenario seeds keep their meaning)
     wide_at = side.randrange(n_ops) if side.random() < 0.2 else None
+    revert_at = side.randrange(n_ops) if side.random() < 0.35 else None
     h = side.random() < 0.04
     huge_at = side.randrange(n_ops) if (force_huge or (h and not ctx.quick())) else None
     try:
@@ -316,6 +317,21 @@ def scenario(ctx, sseed, focus, force_huge=False):
                 ctx.record({"trail": list(trail), "what": "a checkpoint with 6000 pending paths (over 1 MiB stored) is returned whole and keeps working"}, True, ok, ok, True,
                            sample={"pending_entries": len((new or {}).get("pending") or {}), "analyze_rc": rc}, detail={"analyze_rc": rc, "err": err, "update_ok": new is not None})
                 shutil.rmtree(hd)
+                continue
+            if focus == "C19" and revert_at == i:
+                # an edit recorded as pending, then taken back without a commit: the next update finds the same commit and nothing
+                # pending - and must still replace what is stored
+                tracked = [p_.decode("utf-8", "replace") for p_ in vlib.git(repo.repo, "ls-files", "-z").split(b"\0") if p_]
+                cand = [n for n in tracked if n in NAMES and os.path.isfile(os.path.join(repo.repo, n))]
+                if cand:
+                    vlib.git(repo.repo, "add", "-A"); subprocess.run(["git", "commit", "-q", "-m", "clean"], cwd=repo.repo, capture_output=True, env={**os.environ, **vlib.GIT_ENV})
+                    repo.commits.append(repo.rev("HEAD"))
+                    n_ = side.choice(cand); fp = os.path.join(repo.repo, n_); orig = open(fp, "rb").read()
+                    open(fp, "wb").write(orig + b"an edit that will be taken back\n"); trail.append(["modify", n_])
+                    do_update(ctx, repo, rng, trail, focus, pending=True)
+                    open(fp, "wb").write(orig); trail.append(["revert", n_])
+                    do_update(ctx, repo, rng, trail, focus, pending=True)
+                    ctx.count("edit_reverted_between_updates")
                 continue
             if focus == "C02" and wide_at == i:
                 # one list of untracked paths, then (committed) one list of changed paths, each far beyond one pipe read
